@@ -184,15 +184,15 @@ theorem eff_setRemote (pc : PC) (d : Desc) : Eff pc (setRemote pc d).1 := by
   · simp only
     split
     · exact .ofKeep (Keep.refl _)
-    · rename_i pc1 h
-      have := eff_of_setDescription h
-      split
-      · split
-        · exact eff_trans_keep this (keep_applyRemoteOffer _ _ _ _)
+    · split
+      · exact .ofKeep (Keep.refl _)
+      · rename_i pc1 h
+        have := eff_of_setDescription h
+        split
         · split
           · exact eff_trans_keep this (keep_applyRemoteOffer _ _ _ _)
           · exact eff_trans_keep this (Keep.trans (keep_applyRemoteOffer _ _ _ _) (keep_enqueue _ _))
-      · exact eff_trans_keep this ⟨rfl, rfl, rfl, rfl, rfl⟩
+        · exact eff_trans_keep this ⟨rfl, rfl, rfl, rfl, rfl⟩
 
 /-- Close keeps the log (it changes `sig` and `closed`) -/
 theorem eff_close (pc : PC) : Eff pc (close pc).1 := by
@@ -226,9 +226,7 @@ theorem keep_runTail (pc : PC) (t : Tail) : Keep pc (runTail pc t).1 := by
     split <;> exact ⟨rfl, rfl, rfl, rfl, rfl⟩
   | remoteAnswer ans isReneg =>
     simp only [runTail]
-    split
-    · exact ⟨rfl, rfl, rfl, rfl, rfl⟩
-    · split <;> exact ⟨rfl, rfl, rfl, rfl, rfl⟩
+    split <;> exact ⟨rfl, rfl, rfl, rfl, rfl⟩
 
 /-- negotiationNeededOp: the only place where the handler runs, and only behind its guards -/
 theorem eff_nnOp (pc : PC) : Eff pc (nnOp pc) := by
@@ -659,6 +657,8 @@ theorem K_setRemote {pc : PC} (hK : K pc) (d : Desc) : K (setRemote pc d).1 := b
   · simp only
     split
     · exact hK
+    split
+    · exact hK
     · rename_i pc1 h
       split
       · -- an offer: the state is have-remote-offer whatever happens next
@@ -690,11 +690,9 @@ theorem K_setRemote {pc : PC} (hK : K pc) (d : Desc) : K (setRemote pc d).1 := b
               exact this h1
         split
         · exact K_of_not_stable (by rw [sig_applyRemoteOffer]; exact hs)
-        · split
-          · exact K_of_not_stable (by rw [sig_applyRemoteOffer]; exact hs)
-          · exact K_of_not_stable (by
-              show (applyRemoteOffer _ _ _ pc1).sig ≠ .stable
-              rw [sig_applyRemoteOffer]; exact hs)
+        · exact K_of_not_stable (by
+            show (applyRemoteOffer _ _ _ pc1).sig ≠ .stable
+            rw [sig_applyRemoteOffer]; exact hs)
       · have h1 := K_of_setDescription h
         exact K_of_either h1
 
@@ -750,12 +748,10 @@ theorem K_runTail {pc : PC} (hK : K pc) (t : Tail) : K (runTail pc t).1 := by
   | remoteAnswer ans isReneg =>
     simp only [runTail]
     split
-    · exact key pc.trs pc.queue pc.gathered rfl id
-    · split
-      · exact key _ pc.queue pc.gathered (setCurDirs_view _ _ _ _) id
-      · rename_i trs hs
-        exact key _ _ pc.gathered ((startSenders_view hs).trans (setCurDirs_view _ _ _ _))
-          (fun h => List.mem_append_left _ h)
+    · exact key _ pc.queue pc.gathered (setCurDirs_view _ _ _ _) id
+    · rename_i trs hs
+      exact key _ _ pc.gathered ((startSenders_view hs).trans (setCurDirs_view _ _ _ _))
+        (fun h => List.mem_append_left _ h)
 
 theorem check_of_media_eq {pc pc' : PC} (h1 : pc'.curLocal = pc.curLocal) (h2 : pc'.curRemote = pc.curRemote)
     (h3 : pc'.dcs = pc.dcs) (h4 : pc'.trs = pc.trs) : check pc' = check pc :=
